@@ -1,11 +1,93 @@
 import EpdVerif.Drivers.Dsl
 import EpdVerif.Gen.Epd2in9b_v4
-/-! model of `src/epd2in9b_v4/mod.rs` (STUB: programs not yet transcribed) -/
+/-! model of `src/epd2in9b_v4/mod.rs` -/
 namespace EpdVerif.Drivers.Epd2in9b_v4
 open EpdVerif
 open EpdVerif.Gen.Epd2in9b_v4
 
+def W : Act := .wait IS_BUSY_LOW
+
+/-- `DisplayMode` data byte of `turn_on_display` -/
+inductive Mode | dflt | part | fast | base
+
+def Mode.byte : Mode → UInt8
+  | .dflt => 0xf7 | .part => 0x1c | .fast => 0xc7 | .base => 0xf4
+
+def turnOnDisplay (m : Mode) : List Act :=
+  [.cmd Command.TurnOnDisplay, .data [m.byte], .cmd Command.ActivateDisplayUpdateSequence, W]
+
+def init : List Act :=
+  let w := WIDTH
+  let h := HEIGHT
+  [.reset 200000 2000, W, .cmd Command.SwReset, W,
+   .cmd Command.DriverOutputControl,
+   .data [u8 ((h - 1) % 256)], .data [u8 ((h - 1) / 256)], .data [0],
+   .cmd Command.DataEntryMode, .data [0x03],
+   .cmd Command.RamXPosition, .data [0], .data [u8 (w / 8 - 1)],
+   .cmd Command.RamYPosition, .data [0], .data [0],
+   .data [u8 ((h - 1) % 256)], .data [u8 ((h - 1) / 256)],
+   .cmd Command.BorderWavefrom, .data [0x05],
+   .cmd Command.DisplayUpdateControl, .data [0x00], .data [0x80],
+   .cmd Command.ReadBuiltInTemperatureSensor, .data [0x80],
+   .cmd Command.RamXAddressCount, .data [0x00],
+   .cmd Command.RamYAddressCount, .data [0x00], .data [0x00],
+   W]
+
+def updateAchromatic (b : Bytes) : List Act := [.cmd Command.WriteBlackData, .data b]
+
+def updateChromatic (c : Bytes) : List Act := [.cmd Command.WriteRedData, .data c]
+
+def updateFrame (b : Bytes) : List Act :=
+  [.cmd Command.WriteBlackData, .data b, .cmd Command.WriteRedData, .rep 0x00 (WIDTH / 8 * HEIGHT)]
+
+def displayFrame : List Act := turnOnDisplay .dflt
+
+def updatePartialFrame (b : Bytes) (x y width height : Nat) : List Act :=
+  let xs0 := x
+  let xe0 := x + width
+  let ys := y
+  let ye0 := y + height
+  let first : Bool :=
+    (xs0 % 8 + xe0 % 8 == 8 && xs0 % 8 > xe0 % 8) || xs0 % 8 + xe0 % 8 == 0 ||
+      (xe0 - xs0) % 8 == 0
+  let xs1 := xs0 / 8
+  let xe1 := if first then xe0 / 8 else (if xe0 % 8 == 0 then xe0 / 8 else xe0 / 8 + 1)
+  let xe := xe1 - 1
+  let ye := ye0 - 1
+  let xStart := u8 xs1
+  let xEnd := u8 xe
+  assertA (width % 8 == 0) ++
+  assertA (xe1 ≥ 1) ++ assertA (ye0 ≥ 1) ++
+  [.cmd Command.RamXPosition, .data [xStart, xEnd],
+   .cmd Command.RamYPosition, .data [u8 ys, shr8 ys 8], .data [u8 ye, shr8 ye 8],
+   .cmd Command.RamXAddressCount, .data [xStart],
+   .cmd Command.RamYAddressCount, .data [u8 ys, shr8 ys 8],
+   .cmd Command.WriteBlackData, .data b]
+
+def clearFrame : List Act :=
+  let size := WIDTH / 8 * HEIGHT
+  [.cmd Command.WriteBlackData, .rep 0xff size, .cmd Command.WriteRedData, .rep 0 size] ++
+  displayFrame
+
 def prog (_f : Feat) (_d : DState) : Op → Option (List Act)
+  | .new => some init
+  | .wake => some init
+  | .sleep => some [.cmd Command.DeepSleep, .data [1], .delayMs 100]
+  | .upd b => some (updateFrame b)
+  | .part b x y w h => some (updatePartialFrame b x y w h)
+  | .disp => some displayFrame
+  | .updisp b => some (updateFrame b ++ displayFrame)
+  | .clear => some clearFrame
+  | .bg c => some [.upd (fun d => { d with bg := c })]
+  | .lut _ => some []
+  | .wait => some [W]
+  | .color b c => some (updateAchromatic b ++ updateChromatic c)
+  | .achro b => some (updateAchromatic b)
+  | .chro c => some (updateChromatic c)
+  | .basedisp b c =>
+    some (updateFrame b ++ (match c with | some c => updateChromatic c | none => []) ++
+      turnOnDisplay .base ++ [.cmd Command.WriteRedData, .data b])
+  | .disppart => some (turnOnDisplay .part)
   | _ => none
 
 def panel (f : Feat) : Panel :=
